@@ -189,16 +189,31 @@ def parse_results(text):
 
 
 def run_hx(cases, timeout=1800):
-    p = subprocess.run([HX], input=write_cases(cases), stdout=subprocess.PIPE, stderr=subprocess.PIPE,
-                       text=True, timeout=timeout)
+    os.makedirs(os.path.join(BUILD, "tmp"), exist_ok=True)
+    outp = os.path.join(BUILD, "tmp", "hx-out-%d.tsv" % os.getpid())
+    env = dict(os.environ)
+    env["HX_OUT"] = outp
+    env["HX_TMP"] = os.path.join(BUILD, "tmp")
+    p = subprocess.run([HX], input=write_cases(cases), stdout=subprocess.DEVNULL, stderr=subprocess.PIPE,
+                       text=True, timeout=timeout, env=env)
     if p.returncode != 0:
         raise BuildError("hx-run", "exit %d: %s" % (p.returncode, p.stderr[-2000:]))
-    return parse_results(p.stdout)
+    text = open(outp, errors="replace").read()
+    os.remove(outp)
+    return parse_results(text)
+
+
+def _big_stack():
+    import resource
+    try:
+        resource.setrlimit(resource.RLIMIT_STACK, (resource.RLIM_INFINITY, resource.RLIM_INFINITY))
+    except Exception:
+        pass
 
 
 def run_driver(cases, timeout=1800):
     p = subprocess.run([DRIVER], input=write_cases(cases), stdout=subprocess.PIPE, stderr=subprocess.PIPE,
-                       text=True, timeout=timeout)
+                       text=True, timeout=timeout, preexec_fn=_big_stack)
     if p.returncode != 0:
         raise BuildError("driver-run", "exit %d: %s" % (p.returncode, p.stderr[-2000:]))
     return parse_results(p.stdout)
